@@ -544,6 +544,12 @@ def _check_sq(r):
     return r
 
 
+def _neg_nan(h):
+    a = -(np.abs(np.asarray(h.frequencies, dtype=float)) + 1.0)
+    a.flat[a.size - 1] = np.nan
+    return a
+
+
 def _ipl(name):
     return lambda h, o: getattr(h, name)(o)
 
@@ -564,6 +570,10 @@ SITE_OPS = {
     "set_frequencies_neg": lambda h: setattr(h, "frequencies", -np.asarray(h.frequencies)),
     "copy_set_frequencies_neg": lambda h: setattr(h.copy(), "frequencies", -np.asarray(h.frequencies)),
     "constructor_neg": lambda h: type(h)(h.binnings if h.ndim > 1 else h.binning, -np.asarray(h.frequencies)),
+    # negative contents next to a NaN (min() / max() of such an array is NaN and compares False with everything;
+    # seeded C19-setter-min-shortcut-blind-to-nan)
+    "set_frequencies_neg_nan": lambda h: setattr(h, "frequencies", _neg_nan(h)),
+    "constructor_neg_nan": lambda h: type(h)(h.binnings if h.ndim > 1 else h.binning, _neg_nan(h)),
     "set_dtype_then_imul_neg": lambda h: (h.set_dtype(np.float64), h.__imul__(-2.0)),
     "copy_then_idiv_neg": lambda h: h.copy().__itruediv__(-4),
     # array-like operands
